@@ -16,7 +16,9 @@ while i < len(sys.argv):
     else:
         ids.append(a)
         i += 1
-patch = os.path.join(seed, "patch.diff")
+patch = os.path.join(seed, "patch.rebased.diff")
+if not os.path.exists(patch):
+    patch = os.path.join(seed, "patch.diff")
 st = subprocess.run(["git", "-C", "/repo", "status", "--porcelain"], capture_output=True, text=True).stdout.strip()
 if st:
     print("REPO NOT CLEAN:", st)
@@ -25,8 +27,8 @@ r = subprocess.run(["git", "-C", "/repo", "apply", patch], capture_output=True, 
 if r.returncode != 0:
     r = subprocess.run(["git", "-C", "/repo", "apply", "-3", patch], capture_output=True, text=True)
     if r.returncode != 0:
-        print("PATCH DOES NOT APPLY:", r.stderr[:500])
-        subprocess.run(["git", "-C", "/repo", "checkout", "--", "."])
+        print(json.dumps({"seed": seed, "results": {"-": {"exit": -1, "keys": [], "tail": "PATCH DOES NOT APPLY: " + r.stderr[:300]}}}))
+        subprocess.run(["git", "-C", "/repo", "reset", "-q", "--hard", "HEAD"])
         sys.exit(2)
     subprocess.run(["git", "-C", "/repo", "reset", "-q"])
 res = {}
@@ -39,6 +41,6 @@ try:
         if p.returncode not in (0, 1):
             res[cid]["tail"] = (p.stdout + p.stderr)[-1500:]
 finally:
-    subprocess.run(["git", "-C", "/repo", "checkout", "--", "."])
+    subprocess.run(["git", "-C", "/repo", "reset", "-q", "--hard", "HEAD"])
     subprocess.run(["git", "-C", "/repo", "clean", "-fdq"])
 print(json.dumps({"seed": seed, "results": res}, indent=1))
